@@ -4,6 +4,7 @@ import (
 	"bufio"
 	"bytes"
 	"fmt"
+	"io"
 	"net/url"
 	"runtime"
 	"strings"
@@ -34,7 +35,7 @@ func init() {
 			"'over-long' header line = 1 MiB, 'absurd' Content-Length = 4e8: the reader must fail before it has taken more than 256 KiB beyond the preceding messages from the link / allocated more than 64 MiB",
 			"multi-valued headers are compared by their comma-joined value (the codec's own tests define that form)",
 		},
-		RequiredProbes: []string{"c14.eof-mid-message", "c14.roundtrip-complete"},
+		RequiredProbes: []string{"c14.live-emit-with-concurrent-writer", "c14.eof-mid-message", "c14.roundtrip-complete"},
 	})
 }
 
@@ -48,6 +49,15 @@ type c14Item struct {
 	channel int
 	data    []byte
 	raw     []byte
+	emit    func(io.Writer) error // writes the message once more, through the real Write method
+}
+
+// yieldDiscard is a peer that accepts everything slowly: every Write is a schedule point.
+type yieldDiscard struct{ w *sim.World }
+
+func (y yieldDiscard) Write(b []byte) (int, error) {
+	y.w.Y("noise.write")
+	return len(b), nil
 }
 
 type c14Rec struct {
@@ -71,7 +81,8 @@ func (r *c14Rec) OnResponse(p *srtsp.Response) error {
 	return nil
 }
 func (r *c14Rec) OnPack(p *srtsp.RTPPack) error {
-	r.items = append(r.items, c14Item{kind: "frame", channel: int(p.Channel), data: append([]byte(nil), p.Data...)})
+	// the packet is kept as delivered (the server queues it for its consumers): it must stay what it was when returned
+	r.items = append(r.items, c14Item{kind: "frame", channel: int(p.Channel), data: p.Data})
 	return nil
 }
 
@@ -175,6 +186,7 @@ func buildC14(tier string) sim.Scenario {
 					w.Fail("C14/write-error", "Request.Write: %v", err)
 					return
 				}
+				it.emit = func(wr io.Writer) error { return q.Write(wr) }
 			case 1:
 				it.kind = "resp"
 				it.status = []int{200, 401, 404, 455, 461, 500, 551}[tp.Choose(7)]
@@ -184,6 +196,7 @@ func buildC14(tier string) sim.Scenario {
 					w.Fail("C14/write-error", "Response.Write: %v", err)
 					return
 				}
+				it.emit = func(wr io.Writer) error { return p.Write(wr) }
 			default:
 				it.kind = "frame"
 				it.channel = tp.Choose(4)
@@ -213,6 +226,7 @@ func buildC14(tier string) sim.Scenario {
 					w.Fail("C14/write-error", "Packet.Write: %v", err)
 					return
 				}
+				it.emit = func(wr io.Writer) error { return pk.Write(wr, chcfg) }
 			}
 			it.raw = append([]byte(nil), stream.Bytes()[before:]...)
 			items = append(items, it)
@@ -283,7 +297,33 @@ func buildC14(tier string) sim.Scenario {
 				}
 			}
 		})
-		if eofAt >= 0 {
+		live := fault <= 2 && tp.Bool()
+		if live {
+			// the messages are emitted straight onto the connection (every write a schedule point) while another session of
+			// the same process keeps writing responses of its own to a slow peer
+			w.Probe("c14.live-emit-with-concurrent-writer")
+			client.NoYield = false
+			stopNoise := false
+			noiseDone := make(chan struct{})
+			w.Go("noise", func() {
+				defer close(noiseDone)
+				for k := 0; !stopNoise && k < 400; k++ {
+					h := frtsp.Header{}
+					for j := 0; j < 4; j++ {
+						h.Set(fmt.Sprintf("X-Noise-%d-%d", k%7, j), strings.Repeat("n", 3+j+k%5))
+					}
+					(&frtsp.Response{StatusCode: 200, Header: h, Body: "noise"}).Write(yieldDiscard{w})
+				}
+			})
+			for i := range items {
+				if err := items[i].emit(client); err != nil {
+					w.Fail("C14/write-error", "message %d: %v", i, err)
+					break
+				}
+			}
+			stopNoise = true
+			<-noiseDone
+		} else if eofAt >= 0 {
 			client.Write(all[:eofAt])
 			w.Fault("eof-at-byte")
 		} else {
